@@ -275,10 +275,28 @@ def _walk(f, prefix, stored, empties, level=0):
     if level > 0 and len(f.coords) == 0:
         empties.append(prefix)
     for c, p in zip(f.coords, f.payloads):
+        c = _coord(c)
         if isinstance(p, Fiber):
             _walk(p, prefix + (c,), stored, empties, level + 1)
         else:
             stored[prefix + (c,)] = unbox(p)
+
+
+def _coord(c):
+    """Hashable image of a stored coordinate that keeps its kind visible: ints and (nested) tuples are
+    themselves, anything else (e.g. a list where a tuple was stored) becomes a tagged value that can never
+    equal a legal coordinate."""
+    if isinstance(c, tuple):
+        return tuple(_coord(e) for e in c)
+    if isinstance(c, list):
+        return ("<list>",) + tuple(_coord(e) for e in c)
+    if type(c) in (int, str):
+        return c
+    try:
+        hash(c)
+        return (f"<{type(c).__name__}>", c)
+    except TypeError:
+        return (f"<{type(c).__name__}>", repr(c))
 
 
 def _tree_content(root, default):
@@ -439,7 +457,7 @@ def _run_nest(case, mon):
             mon.check(_same(un, nest), "uncompress:nest" + qual,
                       f"{op}({nest}, default={default!r}).uncompress(shape={dims}) returned {un!r}")
         if is_tensor or not all_default or len(dims) == 1:
-            ok, un = _call(mon, "uncompress[noshape]", lambda: root.uncompress(), qual)
+            ok, un = _call(mon, "uncompress", lambda: root.uncompress(), qual)
             mon.count("uncompress_calls")
             if ok:
                 mon.check(_same(un, nest), "uncompress[noshape]:nest" + qual,
